@@ -9,7 +9,7 @@
    entries applied in order, last definition-or-free wins (spec_resolve). *)
 From Coq Require Import List NArith ZArith Bool.
 From GoPdf.Base Require Import Bytes Res.
-From GoPdf.C04 Require Import XRef XRefProofs XRefText XRefTextProofs Extent ExtentProofs Seq FileReader FileReaderProofs RenderShape ReadRender.
+From GoPdf.C04 Require Import XRef XRefProofs XRefText XRefTextProofs Extent ExtentProofs Seq LitString LitStringProofs FileReader FileReaderProofs RenderShape ReadRender.
 Import ListNotations.
 
 (* For every chain of any length over any object numbers that is conforming (wf_chain: every
@@ -172,6 +172,23 @@ Theorem open_bytes_fuel_mono :
 Proof. exact open_bytes_fuel. Qed.
 Print Assumptions open_bytes_fuel_mono.
 
+(* Literal strings (ISO 32000 7.3.4.2).  read_lit is the specification's reader: balanced
+   parentheses, the escapes \n \r \t \b \f \( \) \\ \ddd, a backslash before an end-of-line
+   is a continuation, every raw end-of-line - LF, CR or CR LF - is one LF.  render_lit_bytes
+   is the renderer the harness writes strings with; its list of choices selects, separately
+   for every byte of the value, one of the forms the specification allows (for an LF: \n,
+   \012, raw LF, raw CR, raw CR LF; for a CR: \r or \015; ...) and separately before every
+   byte an optional continuation line ending in LF, CR or CR LF.  For every value and every
+   list of choices - so for every mix of styles within one string - reading the rendered
+   bytes up to the closing parenthesis gives the value back and stops behind the
+   parenthesis.  The harness compares Reader.Get on such strings with the value. *)
+Theorem literal_string_rt :
+  forall (s : bytes) (c : choices) (rest : bytes),
+    forallb (fun b => N.ltb b 256) s = true ->
+    read_lit O (fst (render_lit_bytes s c) ++ 41%N :: rest) = Some (s, rest).
+Proof. exact literal_string_rt_lemma. Qed.
+Print Assumptions literal_string_rt.
+
 (* ---------- the hypotheses are satisfiable ---------- *)
 Definition ex_chain : chain :=
   [ RHybrid 700 [(0%N, [{| re_a := 0; re_b := 65535; re_n := false |}]);
@@ -228,3 +245,14 @@ Example read_render_hypotheses_ex :
   chain_check (b_chain b) = true /\ wf_chain (file_size b) (b_chain b) = true
   /\ (Z.of_nat (length (b_bytes b)) <? 2 ^ 62)%Z = true.
 Proof. vm_compute. repeat split; reflexivity. Qed.
+
+(* "first LF second LF third" with the first LF written as a raw CR and the second as a raw
+   LF, a continuation CR in front of "third" - the shape on which a reader that keeps
+   "ignore the next LF" armed after a lone CR loses the second end-of-line. *)
+Example literal_string_rt_ex :
+  let s := [102; 10; 115; 10; 116]%N in
+  let c := [5; 3; 9; 3; 5; 3; 5; 3; 5; 1]%N in
+  forallb (fun b => N.ltb b 256) s = true /\
+  fst (render_lit_bytes s c) = [102; 13; 115; 10; 92; 13; 116]%N /\
+  read_lit O (fst (render_lit_bytes s c) ++ [41]%N) = Some (s, []).
+Proof. vm_compute. repeat split. Qed.
